@@ -435,6 +435,9 @@ class ConfigManager:
 
         # first map out inherits.
         inherit_names = {name}
+        # who names whom (self-inherits aside): a section may be reached along
+        # several paths, only reaching *itself* is an error
+        edges: dict[str, set[str]] = {}
         for current_section, section_stack in slist:
             current_conf = section_stack[0]
             if "inherit" not in current_conf:
@@ -453,18 +456,35 @@ class ConfigManager:
                     else:
                         slist.append((inherit, section_stack[1:]))
                 else:
-                    if inherit in inherit_names:
+                    edges.setdefault(current_section, set()).add(inherit)
+                    if self._reaches(edges, inherit, current_section):
                         raise errors.ConfigurationError(
                             f"Inherit {inherit!r} is recursive"
                         )
-                    inherit_names.add(inherit)
                     target = self.sections_lookup.get(inherit)
                     if target is None:
                         raise errors.ConfigurationError(
                             f"Inherit target {inherit!r} cannot be found"
                         )
+                    if inherit in inherit_names:
+                        # already in line through another path
+                        continue
+                    inherit_names.add(inherit)
                     slist.append((inherit, target))
         return [_section_data(name, stack[0]) for (name, stack) in slist]
+
+    @staticmethod
+    def _reaches(edges, start: str, goal: str) -> bool:
+        """Whether following the inherits recorded so far leads from start to goal."""
+        todo, seen = [start], set()
+        while todo:
+            node = todo.pop()
+            if node == goal:
+                return True
+            if node not in seen:
+                seen.add(node)
+                todo.extend(edges.get(node, ()))
+        return False
 
     def _section_is_inherit_only(self, section) -> bool:
         return "inherit-only" in section and section.render_value(
